@@ -254,7 +254,7 @@ def oracle(c):
             rows = None
         if c["k"] == "mkprof" and c["where"] is not None:
             # exactly the source rows that satisfy the filter through the key links, once each, in order
-            if c["new"] is not None or not copied or n not in src or "no-such-col" in repr(c["where"]) \
+            if not copied or n not in src or "no-such-col" in repr(c["where"]) \
                     or c11._has_mismatch(c["where"]):
                 continue
             kept = []
@@ -272,6 +272,10 @@ def oracle(c):
                 continue
             want = []
             for row in kept:
+                if c["new"] is not None:
+                    # under another schema the columns are matched by name
+                    colmap = dict(zip([f[0] for f in srcd[n]], row))
+                    row = [colmap.get(f[0]) for f in fs]
                 out = []
                 for v, f in zip(row, fs):
                     if v is None or v == "":
